@@ -296,7 +296,7 @@ func GenRule(ch *core.Chooser, k int, hosts []string, prev []string) string {
 		return p + "$badfilter"
 	case KRegex:
 		lbl := strings.SplitN(h, ".", 2)[0]
-		switch ch.Intn("rule.regex", 6) {
+		switch ch.Intn("rule.regex", 7) {
 		case 0:
 			return "/" + lbl + "[a-z0-9]*\\./"
 		case 1:
@@ -306,6 +306,9 @@ func GenRule(ch *core.Chooser, k int, hosts []string, prev []string) string {
 			return "/\\/ads\\d*\\.js/"
 		case 4:
 			return "/\\/ads\\D*\\.js/"
+		case 5:
+			// the same expression as case 3, case-sensitive
+			return "/\\/ads\\d*\\.js/$match-case" + []string{"", ",script", ",image"}[ch.Intn("rule.regexmc", 3)]
 		default:
 			return "@@/" + lbl + "\\.[a-z]+/"
 		}
